@@ -24,6 +24,7 @@ RULE = (
     "tables) are compared across processes; additionally every case is run with its requests registered in a "
     "different order that keeps the relative order of requests at one (block, offset); byte intervals with blocks "
     "that tie on their offset are split in every process"
+    "; patches use the scratch registers they are given (so the allocation shows in the bytes); rewrites whose patches have prologues are repeated inside one worker process and must give the same module again"
 )
 ASSUMPTIONS = [
     "gtirb_layout.layout_module (a dependency, not part of this repository) iterates module.sections, a set of id-hashed nodes, so with several sections the start address each section gets depends on the allocation pattern; recorded as a finding of the dependency in DESIGN.md: addresses are compared relative to the start of their section, everything else exactly",
